@@ -168,7 +168,8 @@ static void mutate(int w, int j, uint64_t kind, uint64_t param) {
   case F_VARIANT: {
     Variant& v = V(p);
     Val child; child.t = (param % 2) ? Val::STR : Val::INT; child.s = gs; child.i = (long)(param % 1000);
-    switch (kind % 8) {   // (assigning a *container* taken from inside the own payload, v = v.toMap()[k].toMap(), is caller misuse as for any container and is not generated)
+    static const char* const collide[4] = {"kamak", "kbmbk", "kcmck", "kdmdk"};   /* same length, first, middle and last character: one hash bucket chain */
+    switch (kind % 11) {   // (assigning a *container* taken from inside the own payload, v = v.toMap()[k].toMap(), is caller misuse as for any container and is not generated)
     case 7: { // assign from a handle that lives inside the own payload (e.g. walking down a tree): v = v.toList().front()
       if ((m.t == Val::LIST || m.t == Val::ARR || m.t == Val::MAP) && !m.kids.empty()) { const Variant& cv = v; if (m.t == Val::LIST) v = cv.toList().front(); else if (m.t == Val::ARR) v = cv.toArray()[0]; else v = *cv.toMap().begin(); Val c = m.kids[0].second; m = c; probe("assign_from_nested_handle"); }
       break; }
@@ -179,11 +180,35 @@ static void mutate(int w, int j, uint64_t kind, uint64_t param) {
     case 4: v = (int64)(param % 1000); m = Val(); m.t = Val::INT; m.i = (long)(param % 1000); break;
     case 5: v = mkString(gs); m = Val(); m.t = Val::STR; m.s = gs; break;
     case 6: v.clear(); m = Val(); break;
+    case 8: { /* insert or overwrite one of four keys that share a bucket */
+      std::string key = collide[param % 4]; v.toMap().append(mkString(key), mkVariant(child)); if (m.t != Val::MAP) { m = Val(); m.t = Val::MAP; }
+      bool have = false; for (auto& kv : m.kids) if (kv.first == key) { kv.second = child; have = true; probe("map_key_overwritten"); } if (!have) m.kids.push_back({key, child});
+      break; }
+    case 9: { /* remove one key of a map payload */
+      if (m.t == Val::MAP && !m.kids.empty()) { size_t at = (size_t)(param % m.kids.size()); std::string key = m.kids[at].first; v.toMap().remove(mkString(key)); m.kids.erase(m.kids.begin() + at); probe("map_key_removed"); }
+      break; }
+    case 10: { /* assign from a String handle that lives inside the own payload: v = v.toList().front().toString() */
+      if ((m.t == Val::LIST || m.t == Val::ARR || m.t == Val::MAP) && !m.kids.empty()) {
+        Variant* first; if (m.t == Val::LIST) first = &v.toList().front(); else if (m.t == Val::ARR) first = &v.toArray()[0]; else { HashMap<String, Variant>::Iterator it = v.toMap().begin(); first = &*it; }
+        String& inner = first->toString();
+        v = inner;
+        Val c = m.kids[0].second; std::string str = c.t == Val::STR ? c.s : c.t == Val::INT ? std::to_string(c.i) : std::string(); m = Val(); m.t = Val::STR; m.s = str; probe("assign_from_nested_string");
+      }
+      break; }
     }
     break; }
   case F_XML: {
     Xml::Variant& x = X(p);
-    switch (kind % 5) {
+    static const char* const collide[4] = {"kamak", "kbmbk", "kcmck", "kdmdk"};
+    switch (kind % 9) {
+    case 5: { std::string key = collide[param % 4]; Xml::Element& e = x.toElement(); e.attributes.append(mkString(key), mkString(gs)); if (m.t != Val::XELEM) { m = Val(); m.t = Val::XELEM; }
+      bool have = false; for (auto& kv : m.attrs) if (kv.first == key) { kv.second = gs; have = true; probe("map_key_overwritten"); } if (!have) m.attrs.push_back({key, gs});
+      break; }
+    case 6: { if (m.t == Val::XELEM && !m.attrs.empty()) { size_t at = (size_t)(param % m.attrs.size()); std::string key = m.attrs[at].first; x.toElement().attributes.remove(mkString(key)); m.attrs.erase(m.attrs.begin() + at); probe("map_key_removed"); } break; }
+    case 7: { /* replace an element by its tag name: the String handle lives inside the own payload */
+      if (m.t == Val::XELEM) { x = x.toElement().type; std::string str = m.s; m = Val(); m.t = Val::XTEXT; m.s = str; probe("assign_from_nested_string"); } break; }
+    case 8: { /* ... or by its first attribute's value */
+      if (m.t == Val::XELEM && !m.attrs.empty()) { x = *x.toElement().attributes.begin(); std::string str = m.attrs[0].second; m = Val(); m.t = Val::XTEXT; m.s = str; probe("assign_from_nested_string"); } break; }
     case 0: { Xml::Element& e = x.toElement(); e.type = mkString(gs); if (m.t != Val::XELEM) { m = Val(); m.t = Val::XELEM; } m.s = gs; break; }
     case 1: { std::string key; { Host h; key = "a" + std::to_string(++C.uniq); } Xml::Element& e = x.toElement(); e.attributes.append(mkString(key), mkString(gs)); if (m.t != Val::XELEM) { m = Val(); m.t = Val::XELEM; } m.attrs.push_back({key, gs}); break; }
     case 2: { Val child; child.t = Val::XTEXT; child.s = gs; Xml::Element& e = x.toElement(); e.content.append(mkXml(child)); if (m.t != Val::XELEM) { m = Val(); m.t = Val::XELEM; } m.kids.push_back({"", child}); break; }
@@ -284,11 +309,14 @@ static void generate(RunSpec& s, int tier) {
   s.knobs["family"] = fam; s.knobs["ntasks"] = nt; s.knobs["slots"] = k; s.knobs["roots"] = r(2); s.knobs["root0"] = r(1000); s.knobs["root1"] = r(1000);
   static const int memk[] = {1, 2, 3, 5, 7}; static const int synck[] = {0, 1, 2, 3};
   s.knobs["mem_switch_log2"] = memk[r(5)]; s.knobs["sync_switch_log2"] = synck[r(4)];
+  /* map focus: a third of the Variant/Xml plans concentrate on inserting, overwriting and removing keys of one bucket chain in few slots */
+  bool mapFocus = (fam == F_VARIANT || fam == F_XML) && r(3) == 0; s.knobs["map_focus"] = mapFocus;
   for (int w = 0; w < nt; ++w) {
     int n = 2 + (int)r(11);
     for (int i = 0; i < n; ++i) {
       Op o; o.task = w; o.a[0] = (int64_t)r(k); o.a[1] = (int64_t)r(k); o.a[2] = (int64_t)r(1000); o.a[3] = (int64_t)r(1000);
       uint64_t c = r(100);
+      if (mapFocus && r(10) < 7) { c = 50; o.a[1] = (int64_t)r(2); bool ins = r(5) < 3; o.a[2] = fam == F_VARIANT ? (int64_t)(11 * r(50) + (ins ? 8 : 9)) : (int64_t)(9 * r(50) + (ins ? 5 : 6)); }
       o.code = c < 18 ? O_COPY : c < 34 ? O_ASSIGN : c < 42 ? O_RECREATE : c < 66 ? O_MUTATE : c < 74 ? O_SWAP : c < 84 ? O_SEND : c < 94 ? O_RECV : c < 97 ? O_READ : O_WORK;
       if (o.code == O_ASSIGN && r(10) == 0) o.a[1] = o.a[0];
       s.plan.push_back(o);
